@@ -10,6 +10,7 @@ import (
 	"os"
 	"path/filepath"
 	"strings"
+	"sync"
 	"testing"
 	"testing/synctest"
 	"time"
@@ -150,12 +151,15 @@ func init() {
 					}
 					sn.Hosts["distributor.example"] = http.NotFoundHandler()
 					ln := newMemListener()
+					var pmu sync.Mutex
+					pfired := 0
+					store := faultyP{in: inmemory.NewPersistence(), mu: &pmu, occ: map[string]int{}, fired: &pfired}
 					ctx, cancel := context.WithCancel(context.Background())
 					done := make(chan error, 1)
 					go func() {
 						done <- omniwitness.Main(ctx, omniwitness.OperatorConfig{WitnessKeys: signers, WitnessVerifier: witV,
 							FeedInterval: time.Minute, RestDistributorBaseURL: "http://distributor.example", DistributeInterval: time.Minute},
-							inmemory.NewPersistence(), ln, &http.Client{Transport: sn, Timeout: 10 * time.Second})
+							store, ln, &http.Client{Transport: sn, Timeout: 10 * time.Second})
 					}()
 					returned := false
 					var merr error
@@ -189,6 +193,15 @@ func init() {
 							add("no_wellformed_request", fmt.Sprint(l.Feeder), fmt.Sprintf("%s / network %s: entry %q issued no GET to %s%s...%s in 10 simulated minutes", file, netKind, l.Origin, u.Host, base, wantSuffix))
 						}
 					}
+					// the log list Main hands to the distributor (and to the bastion feeder) must name every configured log:
+					// the distributor asks the witness for each of them once per cycle, which shows at the storage seam
+					pmu.Lock()
+					for _, l := range cfg.Logs {
+						if store.occ["R.GetLatest/"+LogID(l.Origin)] == 0 && !returned {
+							add("map_list_mismatch", "log_list_lacks_entry", fmt.Sprintf("%s / network %s: in 10 simulated minutes the distributor never asked the witness about %q (feeder %v): Main's log list does not contain it although the witness map does", file, netKind, l.Origin, l.Feeder))
+						}
+					}
+					pmu.Unlock()
 					out.Stats.Probes["requests_seen"] += len(reqs)
 					for k, v := range sn.Fired {
 						out.Stats.Fired[k] += v
